@@ -2207,8 +2207,9 @@ def preprocess_file(
 
     if pp_defs is None:
         pp_defs = {}
-    if include_dirs is None:
-        include_dirs = set()
+    # The directory of the file is searched for this file only, do not add it
+    # to the caller's (the server's) set of include directories
+    include_dirs = set() if include_dirs is None else set(include_dirs)
     if file_path is not None:
         include_dirs.add(os.path.abspath(os.path.dirname(file_path)))
         # Files being preprocessed, to detect circular includes
